@@ -698,13 +698,12 @@ func checkIDMaps(c *Check) {
 		}
 		relayed, silent, sites := 0, "", 0
 		w := &walker{fn: caller}
-		done := map[*wstate]bool{}
 		w.Seed = func(w *walker, st *wstate, v ssa.Value) *absVal {
 			if v == ssa.Value(wcall) {
 				return &absVal{k: avPtr, key: "X:err"}
 			}
 			call, ok := v.(*ssa.Call)
-			if !ok || done[st] {
+			if !ok || st.noted("relay-seen") {
 				return nil
 			}
 			if _, failed := st.vals[wcall]; !failed {
@@ -737,7 +736,7 @@ func checkIDMaps(c *Check) {
 			if cell == nil {
 				return nil
 			}
-			done[st] = true
+			st.note("relay-seen")
 			sites++
 			word := w.load(st, w.eval(st, cell).key, cell.Type().(*types.Pointer).Elem())
 			if word.k == avConst {
